@@ -13,10 +13,10 @@ import random
 from .. import pipeline_common as pc
 
 CLAUSES = ['SrOnce', 'CloseAfterBody', 'WsgiCloseOnce', 'ClosedOnce', 'CreatedOnce', 'ReadBound',
-           'TooLongRefused', 'HeadersOk', 'ChunksBytes', 'ContentLength', 'NoEscape', 'FnAtMostOnce']
+           'TooLongRefused', 'WithinLimitRead', 'HeadersOk', 'ChunksBytes', 'ContentLength', 'NoEscape', 'FnAtMostOnce']
 M1_INV = ['CreatedFirst', 'CreatedOnce', 'ClosedOnce', 'FnAtMostOnce', 'FnAfterCall', 'SrOnce',
           'CloseAfterBody', 'WsgiCloseOnce', 'NoFnOnInFault', 'BadReqIsClient', 'StatusTable',
-          'NoEscape', 'ReadBound', 'TooLongRefused', 'CountersAgree']
+          'NoEscape', 'ReadBound', 'TooLongRefused', 'WithinLimitRead', 'CountersAgree']
 
 
 def pep3333(s):
